@@ -1,4 +1,3 @@
 package main
 
-func c14Scenarios(tier string) []Scenario { return nil }
 func c13Scenarios(tier string) []Scenario { return nil }
